@@ -547,6 +547,8 @@ class MQTTProtocol(MQTTBaseProtocol):
         '''
         Refills the Publisher transmission window from the queue 
         '''
+        if self.state is not self.CONNECTED and self.state is not self.CONNECTING:
+            return  # an errback fired just before (e.g. by the purge at CONNACK) may have disconnected
         cnx = self.addr
         queue = self.factory.queuePublishTx[cnx]
         # QoS 0 messages do not occupy the window; QoS 1 & 2 wait for a free slot
